@@ -322,6 +322,8 @@ int main(int argc, char **argv) {
             if(fd < 0) die("fopen failed", t[2]);
             fds[s] = fd;
             io_register(fd, t[4] ? t[4] : "file");
+            /* optional 5th argument: the descriptor is handed over positioned at this offset (something else precedes the image) */
+            if(t[4] && t[5]) real_lseek(fd, atoll(t[5]), SEEK_SET);
             RET("\"fd\":%d", fd);
         } else if(!strcmp(op, "fclose")) {
             int s = slot(t[1]);
